@@ -189,6 +189,7 @@ func c20Mount(logbs uint32, is64 bool) {
 	binary.LittleEndian.PutUint16(b[0xfe:], uint16(ds))
 	binary.LittleEndian.PutUint32(b[0x270:], 0)
 	c20SuperCommon(b)
+	vp.Assume(c20le32(b, 0x28) != 0) // s_inodes_per_group of a valid image is not zero (refused since f77281d)
 	c20SealSuper(b)
 	seed := crc.CRC32c(0xffffffff, b[0x68:0x78])
 	for g := 0; g < 2; g++ {
